@@ -493,6 +493,14 @@ def twins_src(charsets=XTCE_CHARSETS, date="2024-01-01T00:00:00") -> str:
         "ES16BE": (f'parameter_types.EnumeratedParameterType("ES16BE_T", {E}.StringDataEncoding(fixed_raw_length=32, encoding="UTF-16BE"), '
                    f'{{{bytes("ON", "UTF-16BE")!r}: "SWITCHED_ON"}})'),
     }
+    # time types whose calibration is not a scale/offset pair: the <Encoding> attributes cannot express it, the nested
+    # encoding's calibrator must survive; and one that is exactly scale and offset
+    types["TQ"] = (f'parameter_types.RelativeTimeParameterType("TQ_T", {E}.IntegerDataEncoding(16, "unsigned", default_calibrator='
+                   f'{C}.PolynomialCalibrator([{C}.PolynomialCoefficient(0.5, 2)])), unit="s")')
+    types["TC3"] = (f'parameter_types.AbsoluteTimeParameterType("TC3_T", {E}.IntegerDataEncoding(16, "unsigned", default_calibrator='
+                    f'{C}.PolynomialCalibrator([{C}.PolynomialCoefficient(1.5, 0), {C}.PolynomialCoefficient(0.25, 1), {C}.PolynomialCoefficient(2.0, 3)])), unit="s", epoch="TAI")')
+    types["TL"] = (f'parameter_types.AbsoluteTimeParameterType("TL_T", {E}.IntegerDataEncoding(32, "unsigned", default_calibrator='
+                   f'{C}.PolynomialCalibrator([{C}.PolynomialCoefficient(100.0, 0), {C}.PolynomialCoefficient(0.5, 1)])), unit="s", epoch="2000-01-01T00:00:00")')
     for i, cs in enumerate(charsets):
         bo = ', byte_order="mostSignificantByteFirst"' if cs.upper() in ("UTF-16", "UTF-32") else ""
         types[f"S{i}"] = f'parameter_types.StringParameterType("S{i}_T", {E}.StringDataEncoding(fixed_raw_length=32, encoding={cs!r}{bo}))'
